@@ -706,7 +706,7 @@ def types(a, env=None, func=False):
                 audits(a, "types", t)
                 audits(a.func, "types", TypeInParent())
 
-            elif a.func.id in env:
+            elif a.func.id in env and hasattr(env[a.func.id], "__args__"):
                 rules_no_restriction(a)
                 rules_no_restriction(a.func)
                 t_f = env[a.func.id]
